@@ -428,6 +428,9 @@ func (x *Exec) point(what string, ready func() bool) {
 	}
 	me.ready = ready
 	me.what = what
+	if Trace != nil {
+		me.what = what + "@" + callerInfo()
+	}
 	me.npts++
 	x.schedule(me)
 	me.ready = nil
@@ -627,6 +630,9 @@ func (x *Exec) schedule(me *Thread) {
 			continue
 		}
 		t := en[c]
+		if Trace != nil {
+			Trace(fmt.Sprintf("step %d: %d enabled, choice %d -> t%d(%s) %s  clock=%dms", pos, n, c, t.ID, t.Name, t.what, (x.clock-epoch0)/1e6))
+		}
 		if t == me {
 			return
 		}
@@ -641,6 +647,28 @@ func (x *Exec) schedule(me *Thread) {
 		}
 		return
 	}
+}
+
+// callerInfo names the first frames outside this package (trace mode only).
+func callerInfo() string {
+	pcs := make([]uintptr, 24)
+	n := runtime.Callers(3, pcs)
+	fr := runtime.CallersFrames(pcs[:n])
+	var out []string
+	for {
+		f, more := fr.Next()
+		if !strings.Contains(f.Function, "/internal/vrt.") && f.Function != "" {
+			fn := f.Function[strings.LastIndex(f.Function, "/")+1:]
+			out = append(out, fmt.Sprintf("%s:%d", strings.TrimPrefix(fn, "shmipc-go."), f.Line))
+			if len(out) >= 3 {
+				break
+			}
+		}
+		if !more {
+			break
+		}
+	}
+	return strings.Join(out, "<")
 }
 
 func (x *Exec) stateKey(me *Thread, meEnabled bool) uint64 {
